@@ -382,6 +382,9 @@ func (g *logGen) v2(kind int, pid int64, abortMarker bool) {
 		k := krec{offDelta: delta, tsDelta: r.Range(0, 40), key: smallBytes(r, true), val: smallBytes(r, true), hdrs: g.hdrs()}
 		if r.Chance(3) {
 			k.tsDelta = int64(hx.Pick(r, boundary32))
+		} else if r.Chance(3) {
+			// the timestamp delta is a varlong: batches that span more than 2^31 ms (24.8 days) are legal
+			k.tsDelta = hx.Pick(r, []int64{2147483648, 2147483655, -2147483649, 3456000000, 1099511627776, -8589934592})
 		}
 		if kind == 2 {
 			typ := byte(1)
